@@ -12,6 +12,16 @@ Spec: `Librfn.Spec.Hex` (the dump format and the accepted syntax, written from t
 
 All theorems quantify over **every** byte array / byte string of any length and over any number of calls.
 Kernel-only (no `bv_decide`); facts about single characters are decided by enumerating the 256 bytes.
+
+Main theorems (all at full strength, none `_partial`):
+* `dump_format`            the dump is `Spec.Hex.format`: rows of 16 lower-case pairs (+ `chunks_shape`, `chunks_flatten`)
+* `dump_parse_roundtrip`   dump, then repeated `hex_get_byte`: exactly the bytes, then -1 for ever
+* `parser_safe`            any string: results `vs ++ (-1)^ω`, `|vs| ≤ len/2`, values in 0…255, never `.oob`
+  (+ `parser_no_fault`, `parser_ptr_within`: `*p` is a suffix of the text)
+* `accepted_syntax`        optional `0x`, either case, blanks, `address:` on each line (+ the two named corollaries)
+* `…_hextest_style`        the round trip and the colon-free syntax in the calling style of tests/hextest.c
+
+What is *not* proved here: that hex.c behaves as the model — that is the correspondence run of `props/C18.py`.
 -/
 namespace Librfn.C18
 open Librfn.Model.Hex
@@ -143,7 +153,8 @@ theorem parser_ptr_within (again : Bool) (text : Str) (n : Nat) :
 example : (trace false 6 [48, 120, 49, 50, 32, 122, 122, 10, 65, 98, 51]).map retOf
     = [some 18, some 171, some (-1), some (-1), some (-1), some (-1)] := by decide +kernel
 
-/-- on the characters `isxdigit` accepts, `nibble` is the digit's value (so `byteVal` loses nothing) -/
+/-- on the characters `isxdigit` accepts, `nibble` is a natural number below 16 (so computing `byteVal` on `Nat` loses
+    nothing) -/
 theorem nibble_xdigit_nat (c : UInt8) (h : isXDigit c = true) : ∃ n : Nat, n < 16 ∧ nibble c = (n : Int) :=
   nibble_xdigit c h
 
@@ -512,5 +523,53 @@ example : (match dump [0x0a, 0x3a, 0x78, 0xff, 0, 1, 2, 3, 4, 5, 6, 7, 8, 9, 10,
     | none => []) =
     [some 10, some 58, some 120, some 255, some 0, some 1, some 2, some 3, some 4, some 5, some 6, some 7, some 8,
      some 9, some 10, some 11, some 160, some (-1), some (-1)] := by decide +kernel
+
+/-! ## the calling style of tests/hextest.c
+
+`hex_get_byte(p, &p)` passes a non-NULL first argument on every call, so every call starts with the colon
+search.  On a text without any colon that changes nothing. -/
+
+theorem yields_again_of_no_colon : ∀ (vs : List Int) (nl : Bool) (s : Str), (∀ c ∈ s, c ≠ 58) →
+    Yields false (parse1 nl s) vs → Yields true (parse1 nl s) vs := by
+  intro vs
+  induction vs with
+  | nil =>
+    intro nl s _ h
+    generalize parse1 nl s = o at h
+    cases h
+    exact .done
+  | cons v vs ih =>
+    intro nl s hs h
+    rcases parse1_good _ nl s (Nat.le_refl _) with e | ⟨v1, p1, e, _, _, _, suf⟩
+    · rw [e] at h; cases h
+    · rw [e] at h ⊢
+      cases h with
+      | byte _ _ _ h' =>
+        have hp : ∀ c ∈ p1, c ≠ 58 := fun c hc => hs c (suf.subset hc)
+        refine .byte _ _ _ ?_
+        rw [nextCall_byte] at h' ⊢
+        rw [parse1_true p1 p1 (skipColon_none p1 hp)]
+        exact ih false p1 hp h'
+
+/-- the accepted syntax without addresses, parsed in the style of hextest.c -/
+theorem accepted_syntax_no_address_hextest_style (ls : List Line) (last : Line) (hwf : ∀ l ∈ ls ++ [last], l.WF)
+    (h : ∀ l ∈ ls ++ [last], l.addr = none) :
+    ∀ n, (trace true n (render ls last)).map retOf
+      = ((values ls last).map some ++ List.replicate n (some (-1))).take n :=
+  yields_trace (yields_again_of_no_colon _ true _
+    (render_no_colon ls last (fun l hl => ⟨hwf l hl, h l hl⟩))
+    (yields_render ls last hwf (addrOk_of_all_none _ h)))
+
+/-- the round trip in the style of hextest.c -/
+theorem dump_parse_roundtrip_hextest_style (bs : List UInt8) :
+    ∃ text, dump bs = some text ∧
+      ∀ n, (trace true n text).map retOf
+        = ((bs.map fun (b : UInt8) => some (b.toNat : Int)) ++ List.replicate n (some (-1))).take n := by
+  refine ⟨format bs, dump_format bs, ?_⟩
+  intro n
+  have e : format bs = render ((chunks bs).map lineOf) emptyLine := (render_rows (chunks bs)).symm
+  rw [e, accepted_syntax_no_address_hextest_style _ _ (fun l hl => (rows_wf _ l hl).1) (fun l hl => (rows_wf _ l hl).2) n,
+    values_rows, chunks_flatten bs.length bs (Nat.le_refl _), List.map_map]
+  rfl
 
 end Librfn.C18
